@@ -9,3 +9,33 @@ Proof.
   unfold v_gen_fast, v_gen, gen_tol, gen_check, gen_check_t, sampler, pcum_of.
   destruct (gen_tables false pofx x) as [xv pc]. cbn [fst snd]. reflexivity.
 Qed.
+
+(* ---------------------------------------------------------------- the requested number of values is
+   returned: gen_sample (the function the per-case correspondence evaluates) maps `sampler` (the
+   function the theorems are about) over the deviates. *)
+From Coq Require Import Lia.
+From EsVerif.C19 Require Import ProofsSampler.
+
+Lemma mapM_total {A B} (f : A -> result B) (l : list A) :
+  (forall a, exists b, f a = Ok b) ->
+  exists ys, mapM f l = Ok ys /\ length ys = length l /\ Forall2 (fun a y => f a = Ok y) l ys.
+Proof.
+  intro T. induction l as [|a t IH].
+  - exists []. repeat split; constructor.
+  - destruct (T a) as [b Hb]. destruct IH as [ys [E [L F]]]. exists (b :: ys). cbn [mapM]. rewrite Hb, E.
+    repeat split; [cbn [length]; lia | constructor; assumption].
+Qed.
+
+Theorem gen_sample_count pofx x us : gen_ok pofx x ->
+  exists ys, gen_sample false pofx x us = Ok ys /\ length ys = length us
+             /\ Forall2 (fun u y => sampler pofx x u = Ok y) us ys.
+Proof.
+  intro G. pose proof (tables_props pofx x G) as TP. cbv zeta in TP.
+  assert (T : forall u, exists y, sampler pofx x u = Ok y) by (intro u; apply sampler_total; exact G).
+  destruct G as [Hl [H3 _]]. unfold gen_sample, sampler in *.
+  rewrite Hl, Nat.eqb_refl. cbn [negb andb].
+  replace (length x =? 0)%nat with false by (symmetry; apply Nat.eqb_neq; lia). cbn [negb andb].
+  destruct (gen_tables false pofx x) as [xv pc]. cbn [fst snd] in TP.
+  destruct TP as [_ [_ [H2 _]]]. destruct pc as [|p0 pt]; [cbn [length] in H2; lia|].
+  apply mapM_total. exact T.
+Qed.
